@@ -14,6 +14,10 @@ func init() {
 				r.Rule("R09c", "COORD-SWITCH-LAST: a function that switches the map forest's TotalRows finishes every translation from the old TotalRows before the store (remembered leaves keep true positions when the forest grows)")
 				checkCoordSwitch(p, r, "R09c")
 			}},
+			{ID: "R09g", Statement: "the keep flag is computed per position", Run: func(p *Program, r *Report) {
+				r.Rule("R09g", "FLAG-PER-POSITION: the keep flag stored with a node inside a loop of the map forest is computed within that iteration, never carried over from an earlier position")
+				checkFlagPerPosition(p, r, "R09g")
+			}},
 			{ID: "R09d", Statement: "prune clears the keep flag", Run: func(p *Program, r *Report) {
 				r.Rule("R09d", "PRUNE-CLEARS-FLAG: after Prune removed a leaf from the cache index, every continuing path stores its node back with the keep flag cleared")
 				checkPruneClearsFlag(p, r, "R09d")
